@@ -203,6 +203,7 @@ fn del_case(a: &[It; 4], doc: &Buf, k: i32) {
 #[kani::proof]
 #[kani::unwind(40)]
 #[kani::stub(crate::parser::parse_value, no_text_e)]
+#[kani::stub(crate::builder::write_entry, write_entry_flat)]
 fn kx_p1() {
     let a = [sc_num2().it, sc_float9().it, sc_str1().it, sc_null().it];
     let doc = layout_array(&a);
@@ -211,6 +212,7 @@ fn kx_p1() {
 #[kani::proof]
 #[kani::unwind(40)]
 #[kani::stub(crate::parser::parse_value, no_text_e)]
+#[kani::stub(crate::builder::write_entry, write_entry_flat)]
 fn kx_p3() {
     let a = [sc_num2().it, sc_float9().it, sc_str1().it, sc_null().it];
     let doc = layout_array(&a);
@@ -218,4 +220,32 @@ fn kx_p3() {
     if sel == 0 { del_case(&a, &doc, 1); }
     else if sel == 1 { del_case(&a, &doc, -1); }
     else { del_case(&a, &doc, 5); }
+}
+
+fn ckey(s: &[u8]) -> It { It::from_parts(T_STRING, s) }
+#[kani::proof]
+#[kani::unwind(40)]
+#[kani::stub(crate::parser::parse_value, no_text_e)]
+#[kani::stub(crate::builder::write_entry, write_entry_flat)]
+fn kx_o2() {
+    let k = [ckey(b"b"), ckey(b"cc")];
+    let v = [sc_num2().it, sc_str1().it];
+    let doc = layout_object(&k, &v);
+    let mut buf = out_buf();
+    let r = delete_by_name(doc.as_slice(), "b", &mut buf);
+    assert!(r.is_ok());
+    assert!(appended(&buf, &layout_object(&[k[1]], &[v[1]])));
+}
+#[kani::proof]
+#[kani::unwind(40)]
+#[kani::stub(crate::parser::parse_value, no_text_e)]
+#[kani::stub(crate::builder::write_entry, write_entry_flat)]
+fn kx_o3() {
+    let k = [ckey(b"b"), ckey(b"cc"), ckey(b"dd")];
+    let v = [sc_num2().it, sc_str1().it, sc_null().it];
+    let doc = layout_object(&k, &v);
+    let mut buf = out_buf();
+    let r = delete_by_name(doc.as_slice(), "cc", &mut buf);
+    assert!(r.is_ok());
+    assert!(appended(&buf, &layout_object(&[k[0], k[2]], &[v[0], v[2]])));
 }
